@@ -218,6 +218,8 @@ MUTANTS = [
     ('C19', 'revert-failure-relay', ('revert', '6366462'), 'C19.e'),
     ('C19', 'failure-relay-without-flag', (R, NODE_PROTOCOL, "            value.errors = True\n", ""), 'C19.e'),
     ('C19', 'failure-relay-by-everyone', (R, NODE_PROTOCOL, "        if getattr(fevent, 'node_protocol', None) is not self:\n            return\n", ""), 'C19.e'),
+    ('C19', 'revert-shared-peers', ('revert', 'e271fde'), 'C19.l'),
+    ('C19', 'revert-shared-protocols', ('revert', '1db5c34'), 'C19.l'),
 ]
 
 # behaviour-preserving edits: the check of the property must stay silent
